@@ -39,11 +39,38 @@ func msgCoq(m *auparse.AuditMessage, err error) string {
 		}
 		return "\x00missing"
 	}
-	return fmt.Sprintf("(Some (MkObs %d (%d) %d %d %s %s %s %s %s))", uint16(m.RecordType), m.Timestamp.Unix(), m.Timestamp.Nanosecond(), m.Sequence,
-		cs(m.RawData), cs(get("record_type")), cs(get("@timestamp")), cs(get("sequence")), cs(get("raw_msg")))
+	// what Data() reports, and every string-valued entry of ToMapStr() (tags is the only other kind)
+	data, derr := m.Data()
+	dataCoq, errCoq := "None", "None"
+	if derr == nil {
+		dataCoq = "(Some " + pairsCoq(data) + ")"
+	} else {
+		errCoq = "(Some " + cs(derr.Error()) + ")"
+	}
+	strs := map[string]string{}
+	for k, v := range ms {
+		if sv, ok := v.(string); ok {
+			strs[k] = sv
+		}
+	}
+	return fmt.Sprintf("(Some (MkObs %d (%d) %d %d %s %s %s %s %s %s %s %s))", uint16(m.RecordType), m.Timestamp.Unix(), m.Timestamp.Nanosecond(), m.Sequence,
+		cs(m.RawData), cs(get("record_type")), cs(get("@timestamp")), cs(get("sequence")), cs(get("raw_msg")), dataCoq, errCoq, pairsCoq(strs))
 }
 
-var hostileBodies = []string{"", " ", "a=b", "msg=audit(1.2:3): x=y", "): :(.", "record_type=X @timestamp=Y sequence=9 raw_msg=Z", "msg='op=x res=success'",
+func pairsCoq(m map[string]string) string {
+	keys := make([]string, 0, len(m))
+	for k := range m {
+		keys = append(keys, k)
+	}
+	sort.Strings(keys)
+	parts := make([]string, len(keys))
+	for j, k := range keys {
+		parts[j] = fmt.Sprintf("(%s, %s)", cs(k), cs(m[k]))
+	}
+	return "[" + strings.Join(parts, "; ") + "]"
+}
+
+var hostileBodies = []string{"", " ", "a=b", "msg=audit(1.2:3): x=y", "): :(.", "record_type=X @timestamp=Y sequence=9 raw_msg=Z", "error=E tags=T record_type=\"a b\" uid=0", "arch=zz syscall=1 error=mine", "msg='op=x res=success'",
 	"a=\"b c\" d='e f'", " x=1 ", "type=FOO msg=audit(5.006:7):", "\t\ttabs=1", "k=(null) j=? i=?,"}
 
 func modeHeader(seed uint64, n int, out *sx.Out) {
@@ -303,8 +330,9 @@ func modeData(seed uint64, n int, out *sx.Out) {
 			typ = auparse.AUDIT_USER_CMD
 			nested = true
 			cmd := genValue(r)
-			body = fmt.Sprintf("pid=%d uid=0 auid=1000 ses=1 msg='cwd=%s cmd=%s terminal=pts/0 res=%s'", r.Intn(9999), encUntrusted("/"+genValue(r)), encUntrusted(cmd), sx.Pick(r, []string{"success", "failed"}))
-			wants = append(wants, want{key: "cmd", value: cmd})
+			cwd := "/" + genValue(r)
+			body = fmt.Sprintf("pid=%d uid=0 auid=1000 ses=1 msg='cwd=%s cmd=%s terminal=pts/0 res=%s'", r.Intn(9999), encUntrusted(cwd), encUntrusted(cmd), sx.Pick(r, []string{"success", "failed"}))
+			wants = append(wants, want{key: "cmd", value: cmd}, want{key: "cwd", value: cwd}) // cwd is decoded in every record type
 		case 8: // TTY
 			typ = sx.Pick(r, []auparse.AuditMessageType{auparse.AUDIT_TTY, auparse.AUDIT_USER_TTY})
 			d := genValue(r)
@@ -327,6 +355,12 @@ func modeData(seed uint64, n int, out *sx.Out) {
 			lv := sx.Pick(r, []string{"abcd12", "6c73", "2f62696e2f6c73", "deadbeef", "6C7", "cafe", "Abcd"})
 			body = fmt.Sprintf("%s=%s op=%s %s=%s res=%s gone=%s", plainK, plainV, encUntrusted("set"), lk, lv, sx.Pick(r, []string{"1", "0", "success", "failed"}), ph)
 			wants = append(wants, want{key: plainK, value: plainV}, want{key: "op", value: "set"}, want{key: "gone", gone: true}, want{key: lk, value: lv})
+			if lk != "cwd" && r.Chance(1, 3) {
+				// a kernel-encoded working directory in a record type of no special kind: cwd is decoded everywhere
+				cwd := "/" + genValue(r)
+				body += " cwd=" + encUntrusted(cwd)
+				wants = append(wants, want{key: "cwd", value: cwd})
+			}
 		}
 		raw := fmt.Sprintf("audit(%d.%03d:%d): %s", 1500000000+r.Intn(1000), r.Intn(1000), r.Intn(100000), body)
 		nq := nested && strings.Contains(strings.SplitN(body, "msg='", 2)[len(strings.SplitN(body, "msg='", 2))-1], "'") && strings.Count(body, "'") > 2
@@ -422,6 +456,43 @@ var frags = []string{"a=b", "key=\"x y\"", "msg='", "'", "\"", " ", "=", "arch=c
 	"avc:  denied  { read write } for  pid=1", "avc: x {", "} for ", "old auid=1 new auid=2", " (hostname=h, addr=?", ")'", "res=success", "res=0", "sig=31", "sig=x", "exe=\"/bin/ls\"", "exe=2F62696E", "cwd=\"/\"", "name=(null)",
 	"\\'", "\\\"", "k=?", "k=?,", "\t", "\n", "auid=4294967295", "ses=-1", "old-auid=-1", "acct=\"r\"", "acct=726F6F74", "syscall=x", "arch=zz", ":", "audit(", "-", "é"}
 
+var hostileTypeNames = []string{"][", "UNKNOWN]1329[", "]UNKNOWN[1329]", "UNKNOWN[", "UNKNOWN[]", "UNKNOWN[x]", "[", "]", "UNKNOWN[1329", "UNKNOWN[99999999999999999999]",
+	"UNKNOWN[-1]", "UNKNOWN[70000]", "UNKNOWN[65535]", "UNKNOWN[65536]", "unknown[1329]", "[1329]", "X[1]Y", "UNKNOWN[1329]x", "", " ", "SYSCALL", "syscall", "SysCall ", "UNKNOWN[1300]", "UNKNOWN[+5]",
+	"UNKNOWN[0x10]", "UNKNOWN[007]", "[[1]]", "]1[", "a]b[c]d", "\xc3\xa9[1]"}
+
+// emitLine runs ParseLogLine on a whole line under recover and a deadline: LCase line outcome (type, sequence, RawData)
+func emitLine(out *sx.Out, i int, line string) {
+	outcome := "DOk"
+	var m *auparse.AuditMessage
+	var perr error
+	done := make(chan struct{})
+	go func() {
+		defer close(done)
+		defer func() {
+			if p := recover(); p != nil {
+				outcome = "DPanic"
+			}
+		}()
+		m, perr = auparse.ParseLogLine(line)
+		if perr == nil && m != nil {
+			m.Data()
+			m.Tags()
+			m.ToMapStr()
+		}
+	}()
+	select {
+	case <-done:
+	case <-time.After(5 * time.Second):
+		outcome = "DHang"
+	}
+	res := "None"
+	if outcome == "DOk" && perr == nil && m != nil {
+		res = fmt.Sprintf("(Some (%d%%N, %d%%N, %s))", uint16(m.RecordType), m.Sequence, cs(m.RawData))
+	}
+	desc := map[string]interface{}{"case": i, "line": line, "outcome": outcome, "err": fmt.Sprint(perr)}
+	out.Case(fmt.Sprintf("LCase %s %s %s", cs(line), outcome, res), desc, "logline/"+outcome, perr == nil)
+}
+
 func modeFuzz(seed uint64, n int, out *sx.Out) {
 	special := []auparse.AuditMessageType{auparse.AUDIT_SYSCALL, auparse.AUDIT_SECCOMP, auparse.AUDIT_SOCKADDR, auparse.AUDIT_EXECVE, auparse.AUDIT_AVC, auparse.AUDIT_LOGIN, auparse.AUDIT_PATH, auparse.AUDIT_PROCTITLE,
 		auparse.AUDIT_USER_CMD, auparse.AUDIT_TTY, auparse.AUDIT_USER_TTY, auparse.AUDIT_USER_LOGIN, auparse.AUDIT_CRED_DISP, auparse.AUDIT_USER_START, auparse.AUDIT_USER_END, auparse.AUDIT_CWD}
@@ -442,6 +513,22 @@ func modeFuzz(seed uint64, n int, out *sx.Out) {
 			}
 		}
 		hdr := sx.Pick(r, []string{"audit(1.002:3): ", "audit(1.002:3):", "audit(1.002:3)", "audit(1.002:3) ", "audit(1.2:3): x", "(1.2:3)"})
+		if r.Chance(1, 5) {
+			// whole log lines through ParseLogLine: the type part is as hostile as the rest
+			tn := sx.Pick(r, hostileTypeNames)
+			if r.Chance(1, 4) {
+				tn = typ.String()
+			} else if r.Chance(1, 4) {
+				b := make([]byte, r.Intn(8))
+				for k := range b {
+					b[k] = sx.Pick(r, []byte{'[', ']', 'U', 'N', 'K', '1', '3', '9', ' ', '=', 'x', 0xc3})
+				}
+				tn = string(b)
+			}
+			line := sx.Pick(r, []string{"type=", "type=", "type=", "typ=", "", "type"}) + tn + sx.Pick(r, []string{" msg=", " msg=", "msg=", " msg", " "}) + hdr + sb.String()
+			emitLine(out, i, line)
+			continue
+		}
 		if r.Chance(1, 6) {
 			// socket addresses of every length for each family the parser slices
 			fam := sx.Pick(r, []string{"0100", "0200", "0A00", "1000", "0300", "0a00", "02"})
